@@ -469,11 +469,15 @@ func ruleLastLane(p *Prog, r *Report, af *asmFile) {
 // more — and the Go frame of an assembly function is not 16-byte aligned by contract either. MOVAPS/VMOVAPS/MOVDQA/
 // VMOVDQA/MOVNT* with a memory operand fault on an address that is not a multiple of their width, where the portable
 // kernel just works. None of the three kernels may contain one (register-to-register forms are harmless).
-func ruleAsmAlign(r *Report, af *asmFile) {
+func ruleAsmAlign(r *Report, af *asmFile) { ruleAsmAlignFor(r, af, "DCT") }
+
+// ruleAsmAlignFor: the same obligation for the kernels whose name contains sub (C20: the YCbCr kernel, whose
+// destination is a parameter of the exported AsmYCbCrToGray and so any []float32 the caller likes).
+func ruleAsmAlignFor(r *Report, af *asmFile, sub string) {
 	needAligned := map[string]bool{"MOVAPS": true, "VMOVAPS": true, "MOVAPD": true, "VMOVAPD": true, "MOVDQA": true, "VMOVDQA": true,
 		"MOVNTPS": true, "VMOVNTPS": true, "MOVNTDQ": true, "VMOVNTDQ": true, "MOVNTDQA": true, "VMOVNTDQA": true}
 	for _, t := range af.texts {
-		if !strings.Contains(t.name, "DCT") {
+		if !strings.Contains(t.name, sub) {
 			continue
 		}
 		key := "asm_x86.s " + t.name + " | no alignment-requiring memory access"
@@ -486,7 +490,7 @@ func ruleAsmAlign(r *Report, af *asmFile) {
 			}
 			for _, o := range in.ops {
 				if o.kind == "mem" && bad == "" {
-					bad = fmt.Sprintf("%s %s at asm_x86.s:%d faults unless the address is a multiple of the operand width: a sub-slice of a pixel buffer (aligned to 4 bytes) crashes the vector kernel where the portable kernel works", in.mn, o.raw, in.line)
+					bad = fmt.Sprintf("%s %s at asm_x86.s:%d faults unless the address is a multiple of the operand width: a slice that is only aligned to 4 bytes (a sub-slice of a pixel buffer, a caller's own buffer) crashes the vector kernel where the portable code works", in.mn, o.raw, in.line)
 				}
 			}
 		}
